@@ -672,9 +672,11 @@ class AsyncServer(base_server.BaseServer):
             # (a string or an object would be taken apart into arguments)
             raise ValueError('The payload of an acknowledgement is a list.')
         if type(id) is not int:
-            # (with the msgpack serializer an id arrives as it was packed:
-            # 1.0 or true would find the callback registered under 1)
-            raise ValueError('The id of an acknowledgement is an integer.')
+            # (an acknowledgement without an id; with the msgpack serializer
+            # an id arrives as it was packed, and 1.0 or true would find the
+            # callback registered under 1)
+            self.logger.warning('Unknown callback received, ignoring.')
+            return
         namespace = namespace or '/'
         sid = self.manager.sid_from_eio_sid(eio_sid, namespace)
         self.logger.info('received ack from %s [%s]', sid, namespace)
